@@ -18,7 +18,7 @@ from core import hexf, unhex
 META = dict(
     level="exploration",
     technique="exhaustive enumeration of all 256 sign patterns per base point and tan(beta), metamorphic oracle: pattern vs. complete flip on every public and helper quantity",
-    text="For 8 realistic on-shell base points (three independent generations, all trilinears non-zero) x tan(beta) in {1.5,10,80}, all 256 sign patterns of (mu,M1,M2,M3,At,Ab,Atau,Amu) are evaluated with calculate_masses(); each pattern is compared with its complete flip on ~300 numbers: all 1L/2L totals and components with and without tan(beta) resummation, the leading-log sub-contributions, Delta_mu/tau/b, tan_beta_cor, the couplings AAC/AAN/BBC/BBN, x_im/x_k, the 2L(a) lambda matrices, delta_g1.., uncertainties, all DR-bar and pole masses, resummed Yukawas (relative 1e-9). Pairs where the spectrum calculation throws are counted and skipped (both members must then throw the same way). Says nothing about magnitudes off the base points.",
+    text="For 8 realistic on-shell base points (three independent generations, all trilinears non-zero) plus hierarchy points that realise every one of the 120 orderings of (|mu|,|M1|,|M2|,m_smuonL,m_smuonR) (so that each is the lightest / heaviest scale somewhere, staus following M2 and mu) with the gluino below or above all squarks, x tan(beta) in {1.5,10,80} (thorough: 6 values), all 256 sign patterns of (mu,M1,M2,M3,At,Ab,Atau,Amu) are evaluated with calculate_masses(); each pattern is compared with its complete flip on ~300 numbers: all 1L/2L totals and components with and without tan(beta) resummation, the leading-log sub-contributions, Delta_mu/tau/b, tan_beta_cor, the couplings AAC/AAN/BBC/BBN, x_im/x_k, the 2L(a) lambda matrices, delta_g1.., uncertainties, all DR-bar and pole masses, resummed Yukawas (relative 1e-9). Pairs where the spectrum calculation throws are counted and skipped (both members must then throw the same way). Each flipped partner is additionally produced a second way: the already evaluated model of the original point (a copy of it; thorough: also the object itself) gets the flipped mu, M_i, A_f through the public setters and calculate_masses() is called again; the same comparison is required. Says nothing about magnitudes off the base points.",
     note="trusted: field-redefinition invariance of the MSSM Lagrangian (the oracle is the relation itself, no reference numbers); mixing matrices themselves are basis dependent and not compared",
     design_ref="3/C06")
 
@@ -30,69 +30,30 @@ TOL = 1e-9
 PATTERNS = list(itertools.product((1.0, -1.0), repeat=8))
 # groups of quantities that are sums of the listed parts: a value that is small through cancellation is
 # compared relative to 1e-4 of the largest part as well (double rounding of the parts: 1e-16/1e-13 margin)
-GROUPS = {
-    "1L": ["amu1L", "amu1L_nonres", "unc0L", "amu1LChi0", "amu1LChipm", "nr.amu1LChi0", "nr.amu1LChipm"],
-    "2L": ["amu2L", "amu2L_nonres", "unc1L", "amu2LFSfapprox", "amu2LFSfapprox_nonres", "amu2LChipmPhotonic",
-           "amu2LChi0Photonic", "amu2LaSferm", "amu2LaCha", "nr.amu2LFSfapprox", "nr.amu2LFSfapprox_nonres",
-           "nr.amu2LChipmPhotonic", "nr.amu2LChi0Photonic", "nr.amu2LaSferm", "nr.amu2LaCha"],
-    "1Lapprox": ["amu1Lapprox", "amu1Lapprox_nonres", "amu1LWHnu", "amu1LWHmuL", "amu1LBHmuL", "amu1LBHmuR", "amu1LBmuLmuR"],
-    "2Lapprox": ["amu2LWHnu", "amu2LWHmuL", "amu2LBHmuL", "amu2LBHmuR", "amu2LBmuLmuR"],
-}
-SKIP = {"sig_lo"}
-EPS = 2.0 ** -52
-# quantities that carry a mass-eigenstate index -> sectors whose eigenvectors enter
-STATE_INDEXED = {"AAN": ("Chi", "Sm"), "BBN": ("Chi", "Sm"), "AAC": ("Cha",), "BBC": ("Cha",),
-                 "lambda_mu_cha": ("Cha",), "lambda_stop": ("St",), "lambda_sbot": ("Sb",), "lambda_stau": ("Stau",)}
+GROUPS, STATE_INDEXED, compare_block, compare = mssmrun.GROUPS, mssmrun.STATE_INDEXED, mssmrun.compare_block, mssmrun.compare
+SKIP = mssmrun.SKIP
 
 
-def conditioning(lay, v):
-    """||M||/gap per sector from the reported masses (mass matrices for fermions, squared for scalars)"""
-    out = {}
-    for sct, name, sq in (("Chi", "MChi", False), ("Cha", "MCha", False), ("Sm", "MSm", True), ("St", "MSt", True),
-                          ("Sb", "MSb", True), ("Stau", "MStau", True)):
-        m = np.sort(v[mssmrun.col(lay, name)] ** (2 if sq else 1))
-        gap = np.diff(m).min()
-        out[sct] = float(m.max() / gap) if gap > 0 else float("inf")
-    return out
+def base_list(quick):
+    """8 benchmark-derived points + the hierarchy points: all 120 orderings of (|mu|,|M1|,|M2|,m_smuL,m_smuR);
+    quick: gluino lighter / heavier than the squarks alternating with the ordering, thorough: both"""
+    hier = sorted(mssmrun.HIER_POINTS)
+    if quick:
+        hier = [h for i, h in enumerate(hier) if (i // 2 + i) % 2 == 0]      # one of g0/g1 per ordering, alternating
+    return list(mssmrun.BENCH_POINTS) + hier
 
 
-def compare(lay, a, b):
-    """list of (quantity, element index, x, y, rel) for which |x-y| > 1e-9 max(|x|,|y|) + floor"""
-    out, worst = [], {}
-    grp = {}
-    groups = [[n for n in names if n in lay] for names in GROUPS.values()]
-    groups += [["nr." + n for n in GROUPS[g] if "nr." + n in lay] for g in ("1Lapprox", "2Lapprox")]
-    for names in groups:
-        S = max([abs(v[lay[n][0]]) for n in names for v in (a, b)] or [0.0])
-        for n in names:
-            grp[n] = S
-    kap = conditioning(lay, a)
-    for n, (off, ln) in lay.items():
-        if n in SKIP or n == "__n__" or ln == 0:
-            continue
-        x, y = a[off:off + ln], b[off:off + ln]
-        if ln > 1:
-            floor = 1e-13 * max(np.abs(x).max(), np.abs(y).max())
-        else:
-            floor = 1e-13 * grp.get(n, 0.0)
-        # per-state couplings of nearly degenerate mass eigenstates are only defined up to
-        # (rounding of the mass matrix)/(eigenvalue gap): 256 eps ||M||/gap of the sectors they are built from
-        k_ = sum(kap[sct] for sct in STATE_INDEXED.get(n[3:] if n.startswith("nr.") else n, ()))
-        if k_:
-            floor += 256 * EPS * k_ * max(np.abs(x).max(), np.abs(y).max())
-        den = np.maximum(np.abs(x), np.abs(y))
-        diff = np.abs(x - y)
-        bad = ~(diff <= TOL * den + floor)          # NaN counts as failure
-        with np.errstate(all="ignore"):
-            rel = np.where(den > 0, diff / den, 0.0)
-        worst[n] = float(np.nanmax(rel)) if np.isfinite(rel).any() else float("inf")
-        for j in np.nonzero(bad)[0]:
-            out.append((n, int(j), float(x[j]), float(y[j]), float(rel[j])))
-    return out, worst
+def ordering_class(base, p):
+    """(lightest, heaviest, full ordering) of (|mu|,|M1|,|M2|,m_smuL,m_smuR) and gluino/3rd-gen-squark relation"""
+    b = mssmrun.BASE_POINTS[base]
+    v = sorted([(b["Mu"], "Mu"), (b["M1"], "M1"), (b["M2"], "M2"), (b["msl"][1], "msl2"), (b["mse"][1], "mse2")])
+    sq = [b["msq"][2], b["msu"][2], b["msd"][2]]
+    glu = "glu<sq3" if b["M3"] < min(sq) else ("glu>sq3" if b["M3"] > max(sq) else "glu~sq3")
+    return v[0][1], v[-1][1], "<=".join(n for _, n in v), glu
 
 
 def _worker(job):
-    base, tb = job
+    base, tb = job[:2]
     lay = mssmrun.layout("plain")["O"]
     pts = [mssmrun.os_point(base, tb, s) for s in PATTERNS]
     res = mssmrun.run_os(pts, "plain")
@@ -111,18 +72,48 @@ def _worker(job):
             k = "%s: %s" % (r[1], r[2][:60])
             skip_reasons[k] = skip_reasons.get(k, 0) + 1
             continue
-        bad, w = compare(lay, a[1], b[1])
-        for k, v in w.items():
-            worst[k] = max(worst.get(k, 0.0), v)
         compared.append(p)
-        seen = set()
-        for n, j, x, y, rel in bad:
-            if n in seen:
+    if compared:
+        A = np.stack([res[idx[p]][1] for p in compared])
+        B = np.stack([res[idx[tuple(-x for x in p)]][1] for p in compared])
+        bads, worst = compare_block(lay, A, B)
+        for p, bad in zip(compared, bads):
+            seen = set()
+            for n, j, x, y, rel in bad:
+                if n in seen:
+                    continue
+                seen.add(n)
+                fails.append((p, n, "%s[%d] = %r at signs(mu,M1,M2,M3,At,Ab,Atau,Amu)=%r but %r at the completely flipped point (rel. diff %.3e)"
+                              % (n, j, x, list(p), y, rel)))
+    # the flipped partner built on a re-used object: the evaluated model of p (quick: a copy of it; thorough:
+    # also the object itself) gets the flipped mu, M_i, A_f through the public setters + calculate_masses()
+    nre = 0
+    if compared:
+        mode = job[2]
+        fams = mssmrun.run_osf([(pts[idx[p]], [pts[idx[tuple(-x for x in p)]]]) for p in compared], mode, "plain")
+        for var, tag in (("chain", "reused-partner-object"), ("copy", "reused-partner-copy")):
+            if var not in fams[0]:
                 continue
-            seen.add(n)
-            fails.append((p, n, "%s[%d] = %r at signs(mu,M1,M2,M3,At,Ab,Atau,Amu)=%r but %r at the completely flipped point (rel. diff %.3e)"
-                          % (n, j, x, list(p), y, rel)))
-    return base, tb, fails, worst, skipped, compared, skip_reasons
+            ok = [i for i, f in enumerate(fams) if f[var][0][0] == "OK"]
+            for i, f in enumerate(fams):
+                if f[var][0][0] != "OK":
+                    fails.append((compared[i], tag + ":status", "the flipped partner built on the re-used model throws %r although the freshly built one does not" % (f[var][0][1:3],)))
+            if ok:
+                A = np.stack([res[idx[compared[i]]][1] for i in ok])
+                B = np.stack([fams[i][var][0][1] for i in ok])
+                bads, w2 = compare_block(lay, A, B)
+                nre += len(ok)
+                for k_, v_ in w2.items():
+                    worst["reused:" + k_] = max(worst.get("reused:" + k_, 0.0), v_)
+                for i, bad in zip(ok, bads):
+                    seen = set()
+                    for n, j, x, y, rel in bad:
+                        if n in seen:
+                            continue
+                        seen.add(n)
+                        fails.append((compared[i], tag + ":" + n, "%s[%d] = %r at signs=%r but %r at the completely flipped point obtained by re-using the evaluated model (%s) (rel. diff %.3e)"
+                                      % (n, j, x, list(compared[i]), y, var, rel)))
+    return base, tb, fails, worst, skipped, compared, skip_reasons, nre
 
 
 def run(ctx):
@@ -130,11 +121,14 @@ def run(ctx):
     mssmrun.exe("plain")
     lay = mssmrun.layout("plain")["O"]
     tbs = TBS_QUICK if ctx.quick else TBS_THOROUGH
-    jobs = [(b, tb) for b in mssmrun.BASE_POINTS for tb in tbs]
-    worst, nskip, ncmp, reasons = {}, 0, 0, {}
+    bases = base_list(ctx.quick)
+    jobs = [(b, tb, 2 if ctx.quick else 3) for b in bases for tb in tbs]
+    worst, nskip, ncmp, reasons, classes, per_tb = {}, 0, 0, {}, {}, {}
+    nreused = 0
     with mp.Pool(min(16, os.cpu_count() or 4)) as pool:
-        for base, tb, fails, w, skipped, compared, sr in pool.imap(_worker, jobs):
-            ctx.evals(len(PATTERNS))
+        for base, tb, fails, w, skipped, compared, sr, nre in pool.imap(_worker, jobs):
+            ctx.evals(len(PATTERNS) + nre)
+            nreused += nre
             nskip += skipped
             ncmp += len(compared)
             for k, v in sr.items():
@@ -143,6 +137,13 @@ def run(ctx):
                 worst[k] = max(worst.get(k, 0.0), v)
             for p in compared:
                 ctx.nontrivial((base, tb, p))
+            if compared:
+                oc = ordering_class(base, None)
+                for key, val in (("lightest", oc[0]), ("heaviest", oc[1]), ("ordering", oc[2]), ("gluino", oc[3]),
+                                 ("lightest@tb", "%s@%g" % (oc[0], tb))):
+                    classes.setdefault(key, {})
+                    classes[key][val] = classes[key].get(val, 0) + len(compared)
+            per_tb[tb] = [per_tb.get(tb, [0, 0])[0] + len(compared), per_tb.get(tb, [0, 0])[1] + skipped]
             for p, n, what in fails:
                 ctx.fail("%s" % n, "%s  [base point %s, tan(beta)=%g]" % (what, base, tb),
                          {"base": base, "tb": hexf(tb), "signs": list(p)})
@@ -150,7 +151,21 @@ def run(ctx):
                 ctx.sample({"base": base, "tb": tb, "signs": list(compared[len(compared) // 2]), "pairs_compared": len(compared), "pairs_skipped": skipped})
     nq = sum(1 for n in lay if n not in SKIP and n != "__n__")
     ctx.note("pairs_total", len(jobs) * 128)
+    ctx.note("base_points", len(bases))
+    ctx.note("pairs_compared_by_lightest_of(mu,M1,M2,msl2,mse2)", classes.get("lightest", {}))
+    ctx.note("pairs_compared_by_heaviest_of(mu,M1,M2,msl2,mse2)", classes.get("heaviest", {}))
+    ctx.note("pairs_compared_by_lightest_and_tan_beta", dict(sorted(classes.get("lightest@tb", {}).items())))
+    ctx.note("distinct_full_orderings_compared", len(classes.get("ordering", {})))
+    ctx.note("pairs_compared_by_gluino_vs_3rd_gen_squarks", classes.get("gluino", {}))
+    ctx.note("pairs_compared/skipped_by_tan_beta", {("%g" % k): v for k, v in sorted(per_tb.items())})
+    # coverage requirement: every one of the five masses is the lightest and the heaviest somewhere, and all
+    # 120 orderings were actually compared (not only enumerated and skipped)
+    missing = [n for n in mssmrun.HIER_NAMES if n.replace("Mu", "Mu") not in classes.get("lightest", {})] + \
+              [n for n in mssmrun.HIER_NAMES if n not in classes.get("heaviest", {})]
+    if missing or len(classes.get("ordering", {})) < 120:
+        ctx.cap("ordering-classes-not-all-compared: missing %r, %d of 120 orderings" % (missing, len(classes.get("ordering", {}))))
     ctx.note("pairs_compared", ncmp)
+    ctx.note("pairs_compared_with_partner_on_reused_model", nreused)
     ctx.note("pairs_skipped(threw/problem)", nskip)
     ctx.note("skip_reasons", reasons)
     ctx.note("quantities_compared_per_pair", nq)
@@ -158,12 +173,13 @@ def run(ctx):
     top = sorted(worst.items(), key=lambda kv: -kv[1])[:12]
     ctx.note("largest_relative_differences", {k: float("%.3g" % v) for k, v in top})
     ctx.assumptions += [
-        "SM input fixed to the values of input/example.gm2; magnitudes only at the 8 base points",
+        "SM input fixed to the values of input/example.gm2; magnitudes only at the 8 benchmark-derived base points and the hierarchy points (masses 300..2600 GeV in all 120 orderings of |mu|,|M1|,|M2|,m_smuL,m_smuR; gluino 600 or 4000 GeV)",
         "first/second-generation A_u, A_d follow the sign of A_t, A_b and A_e(1,1) that of A_tau (they flip with the complete flip)",
         "a quantity that is an exact sum of listed parts may differ by 1e-13 of the largest part (double rounding of the parts) in addition to 1e-9 relative"]
     return ctx.finish(
-        "8 base points x tan(beta) %r x all 256 sign patterns of (mu,M1,M2,M3,At,Ab,Atau,Amu); each unordered pair {pattern, complete flip} compared once; "
-        "distinct = (base point, tan beta, sign pattern with mu>0) of pairs whose spectrum calculation succeeded" % (tbs,),
+        "(8 benchmark-derived base points + %d hierarchy points = all 120 orderings of (|mu|,|M1|,|M2|,m_smuL,m_smuR) x gluino lighter/heavier than the squarks) "
+        "x tan(beta) %r x all 256 sign patterns of (mu,M1,M2,M3,At,Ab,Atau,Amu); each unordered pair {pattern, complete flip} compared once; "
+        "distinct = (base point, tan beta, sign pattern with mu>0) of pairs whose spectrum calculation succeeded" % (len(bases) - 8, tbs),
         {})
 
 
@@ -187,6 +203,18 @@ def replay(ctx, path):
     bad, _ = compare(lay, a[1], b[1])
     for n, j, x, y, rel in bad[:10]:
         print("replay: %s[%d] = %r vs %r at the flipped point (rel %.3e)" % (n, j, x, y, rel))
+    # flipped partner on the re-used evaluated model (same object and copy)
+    fam = mssmrun.run_osf([(mssmrun.os_point(dd["base"], tb, p), [mssmrun.os_point(dd["base"], tb, q)])], 3, "plain")[0]
+    for var in ("chain", "copy"):
+        r = fam[var][0]
+        if r[0] != "OK":
+            print("replay: partner on re-used model (%s) throws %r" % (var, r[1:3]))
+            bad = bad + [("status", 0, 0.0, 0.0, 0.0)]
+            continue
+        b2, _ = compare(lay, a[1], r[1])
+        for n, j, x, y, rel in b2[:10]:
+            print("replay: %s[%d] = %r vs %r at the flipped point built on the re-used model (%s) (rel %.3e)" % (n, j, x, y, var, rel))
+        bad = bad + b2
     if bad:
         print("VIOLATION property=C06 replay=%s" % path)
         return 1
